@@ -12,10 +12,18 @@ from typing import Any
 from .. import core, escommon
 from ..gen import surface
 
-MODULES = ["ESV.Props.C01"]
+MODULES = ["ESV.Props.C01", "ESV.Props.C01Backend"]
 THEOREMS = ["ESV.Beh.check_sound", "ESV.Beh.validate_sound", "ESV.C01.routine_validated", "ESV.C01.machines_validated",
             "ESV.C01.equivalent_halting_trace", "ESV.C01.jump_always_goes", "ESV.C01.flow_ending_ops_stop",
-            "ESV.C01.branch_case_call_are_tests", "ESV.C01.tables_tied"]
+            "ESV.C01.branch_case_call_are_tests", "ESV.C01.tables_tied",
+            # back end of the compiler preserves behaviour, for all well-formed labelled code (design_notes/C01_backend.md)
+            "ESV.C01Backend.backend_preserves", "ESV.C01Backend.strip_preserves",
+            "ESV.C01Backend.finalize_remover_preserves", "ESV.C01Backend.backend_preserves_noTrail",
+            "ESV.Beh.sim_of_rel", "ESV.Beh.equiv_of_map",
+            "ESV.C01Backend.ctx_jump_counterexample", "ESV.C01Backend.ctx_label_counterexample",
+            "ESV.C01Backend.duplicate_label_counterexample", "ESV.C01Backend.cond_trailing_counterexample",
+            "ESV.C01Backend.duplicate_offset_counterexample", "ESV.C01Backend.raw_jump_counterexample",
+            "ESV.C01Backend.jump_root_counterexample"]
 
 
 def table_mismatch(ast: dict, res: dict) -> str | None:
